@@ -287,8 +287,12 @@ def _updown(direction, union):
         def check(path, val, rec):
             out = []
             names = [c[0] for c in rec.calls]
-            out.append(('calls', BoolVal(names == (['maximal', 'iterunion'] if union else ['iterunion']))))
-            if names != (['maximal', 'iterunion'] if union else ['iterunion']):
+            # the union forms may reduce the collection with tools.maximal first (the traversal of a collection and of its minimal /
+            # maximal members coincide: lemma.traversal.*), or hand the collection over as it is
+            reduced = union and names == ['maximal', 'iterunion']
+            okc = names == ['iterunion'] or reduced
+            out.append(('calls', BoolVal(okc)))
+            if not okc:
                 return out
             it = rec.calls[-1]
             out.append(('returns-the-traversal', BoolVal(val is it[3])))
@@ -299,7 +303,9 @@ def _updown(direction, union):
             seeds, k, n = it[1]
             out.append(('sortkey', _is_getter(k, key)))
             out.append(('next_concepts', _is_getter(n, nxt)))
-            if union:
+            if union and not reduced:
+                out.append(('seeds-are-the-collection', BoolVal(seeds is arg)))
+            elif union:
                 m = rec.calls[0]
                 okm = len(m[1]) == 1 and m[1][0] is arg and set(m[2]) == {'comparison'} \
                     and getattr(m[2]['comparison'], 'which', None) == comp
